@@ -9,7 +9,7 @@ ASSUME = ['demonic oracle (kani/src/oracle.rs): any correct SatSolver may return
 def run(tier, seed):
     return kani_check.run("C04", ["c04_"], tier, seed, dict(
         functions=FUNCS, bounds="certificates of DC / DS queries: presence, validity, membership of the queried argument, identity of the argument objects; " + BOUNDS, assumptions=ASSUME),
-        jobs=6)
+        jobs=8 if tier == "thorough" else 6)
 
 
 def replay(path):
